@@ -364,3 +364,53 @@ func VP_C06_marshal_held() {
 	vp.Assert(p2.Scan(&dc, &ds) == nil && dc == c, "the second packet scans to its fields")
 	vp.Cover("end")
 }
+
+// a ReadFrom that failed (stream cut at any offset) leaves a destination that
+// still decodes the next value correctly, for the length-prefixed types.
+func VP_C06_read_after_failure() {
+	n1, n2 := 1+vp.Choice(3), vp.Choice(3)
+	c1, c2 := vp.Bytes(n1), vp.Bytes(n2)
+	switch vp.Choice(4) {
+	case 0:
+		first := append(vpVarIntRef(int32(n1)), c1...)
+		var d String
+		_, err := d.ReadFrom(bytes.NewReader(first[:vp.Choice(len(first))]))
+		vp.Assert(err != nil, "a truncated value is an error")
+		vpCheckRead(&d, append(vpVarIntRef(int32(n2)), c2...))
+		vp.Assert(string(d) == string(c2), "round trip value")
+	case 1:
+		first := append(vpVarIntRef(int32(n1)), c1...)
+		d := ByteArray(vpPrior(2))
+		_, err := d.ReadFrom(bytes.NewReader(first[:vp.Choice(len(first))]))
+		vp.Assert(err != nil, "a truncated value is an error")
+		vpCheckRead(&d, append(vpVarIntRef(int32(n2)), c2...))
+		vp.Assert(string(d) == string(c2), "round trip value")
+	case 2:
+		first := append(vpVarIntRef(int32(n1)), c1...)
+		for i := range c1 {
+			c1[i] &= 0x7f
+		}
+		var dst []VarInt
+		_, err := Ary[VarInt]{Ary: &dst}.ReadFrom(bytes.NewReader(first[:vp.Choice(len(first))]))
+		vp.Assert(err != nil, "a truncated value is an error")
+		ref := vpVarIntRef(int32(n2))
+		for i := range c2 {
+			c2[i] &= 0x7f
+			ref = append(ref, c2[i])
+		}
+		vpCheckRead(Ary[VarInt]{Ary: &dst}, ref)
+		vp.Assert(len(dst) == n2, "Ary round trip length (whatever the destination held before)")
+		for i := range dst {
+			vp.Assert(dst[i] == VarInt(c2[i]), "Ary round trip value")
+		}
+	default:
+		first := append(vpVarIntRef(2), vp.Bytes(16)...)
+		var d BitSet
+		_, err := d.ReadFrom(bytes.NewReader(first[:vp.Choice(len(first))]))
+		vp.Assert(err != nil, "a truncated value is an error")
+		x := vp.Uint64()
+		vpCheckRead(&d, append(vpVarIntRef(1), vpBE(x, 8)...))
+		vp.Assert(len(d) == 1 && uint64(d[0]) == x, "round trip value")
+	}
+	vp.Cover("end")
+}
